@@ -1,5 +1,7 @@
 package minipg
 
+import "strings"
+
 // Queries and DML.
 
 func (p *parser) startsSelect(k int) bool {
@@ -602,7 +604,15 @@ func (p *parser) parseInsert() (Stmt, error) {
 		return nil, err
 	}
 	if p.isKw("as") {
-		return nil, p.unsupportedAt(p.peek(), "INSERT … AS alias")
+		// bun writes INSERT INTO "t" AS "t": an alias equal to the table name changes nothing; any other alias is unsupported
+		at := p.next()
+		alias, err := p.ident()
+		if err != nil {
+			return nil, err
+		}
+		if !strings.EqualFold(alias, st.Table) {
+			return nil, p.unsupportedAt(at, "INSERT … AS alias (other than the table's own name)")
+		}
 	}
 	if p.isOp("(") && !p.startsSelect(1) {
 		if st.Columns, err = p.parseColumnList(); err != nil {
